@@ -123,7 +123,7 @@ class HopEnv(object):
     p.makeConnection(tr)
     return f, p, tr
 
-  def reconnect(self, f, p, pause_period):
+  def reconnect(self, f, p, pause_period, timer_fires_while_down=False):
     """the closing connection is gone (everything written to it was flushed first, as Twisted does); the factory
     retries and a new connection is made"""
     from twisted.internet.error import ConnectionDone
@@ -132,6 +132,8 @@ class HopEnv(object):
     self.conn.state = 'disconnected'
     p.connectionLost(reason)
     f.clientConnectionLost(self.conn, reason)
+    if timer_fires_while_down:
+      self.reactor.clock.advance(1)       # the deferred send fires with no connection
     f.clock.advance(1000)
     self.conn.state = 'connected'
     p2 = f.buildProtocol(IPv4Address('TCP', '127.0.0.1', 2004))
@@ -199,6 +201,11 @@ def one_queue(ctx, he, rng, proto, mpm, n):
     for dp in dps[i:i + k]:
       f.sendDatapoint(dp[0], (dp[1], dp[2]))
     i += k
+    if rng.random() < 0.12 and not tr.disconnecting:
+      # the connection drops while a send is pending (everything written so far had been flushed); the send timer
+      # fires while the destination is down; the factory reconnects
+      p, tr = he.reconnect(f, p, pp, timer_fires_while_down=True)
+      transports.append(tr)
     for _ in range(rng.randint(0, 3)):
       he.reactor.clock.advance(1)
       if tr.disconnecting:
